@@ -163,10 +163,14 @@ def run(ctx):
     seeds = [{"id": i, "src": s["src"], "experimental": s["experimental"], "ops": [], "seed": nm, "timeout": 300}
              for i, (nm, s) in enumerate(sorted(diag_seeds.SEEDS.items()))]
     sres = run_all(seeds)
-    for j, rr in zip(seeds, sres):
-        if rr["status"] != "case" or any(t[-1]["out"] != "ok" for t in rr["traces"]):
-            raise lib.Machinery(f"seed program {j['seed']} is not accepted by /repo: "
-                                f"{[(n, t[-1]) for n, t in zip(rr['names'], rr['traces'])]} {rr['infos']}")
+    # A seed that /repo rejects with a proper user error is no longer a well-typed starting point on this
+    # tree (not this property's business; noted in the evidence).  A seed that crashes is a finding like
+    # any other: its lifecycle goes to TLC with the rest.
+    not_accepted = [j["seed"] for j, rr in zip(seeds, sres)
+                    if rr["status"] != "case" or any(t[-1]["out"] == "reject" for t in rr["traces"])]
+    if len(not_accepted) > len(seeds) // 2:
+        raise lib.Machinery(f"{len(not_accepted)} of {len(seeds)} seed programs are rejected by /repo, e.g. "
+                            f"{not_accepted[:3]}: {[i for rr in sres for i in rr['infos'] if i][:1]}")
     probes = [{"id": k, "src": src, "experimental": exp, "ops": ["probe"], "seed": f"probe{i}", "timeout": 120}
               for k, (i, src, exp) in enumerate((i, src, exp) for i, src in enumerate(diag_probes.PROBES) for exp in (False, True))]
     jobs = probes + make_mutants(ctx.seed, ctx.pick(3000, 30000))
@@ -216,6 +220,7 @@ def run(ctx):
         "final_events": dict(outcomes),
         "operators": dict(ops),
         "seeds": len(seeds),
+        "seeds_not_accepted": not_accepted,
         "handwritten_probes": len(probes),
         "module_body_exceptions": dict(collections.Counter(r.get("module_body", "") for r in res if r.get("module_body"))),
         "unmatched_traces": len(bad),
